@@ -27,9 +27,11 @@ Record odump := {
 
 Inductive crashspec :=
 | CNone                               (* the child ran to the end and closed the store *)
-| CHook (o : wop) (phase cdone : Z)   (* died at a hook point of write o: phase 0 = ids not committed, 1 = ids committed,
-                                         2 = data committed; cdone = counter commits completed (phase 2) *)
-| CKill (alts : list wop).            (* SIGKILL: the write in progress (alternative dataset orders), [] = none in progress *)
+| CHook (o : wop) (phase : Z) (done : list Z)
+    (* died at a hook point of write o (datasets in the order ExecuteTransaction processed them): phase 0 = ids not
+       committed, 1 = ids committed, 2 = data committed; done = datasets whose counter commit was completed (phase 2;
+       the counter loop iterates another Go map, its order is independent of the processing order) *)
+| CKill (alts : list wop).            (* SIGKILL at an unknown instant: the write in progress, [] = none in progress *)
 
 Record tcase := {
   t_next0 : Z; t_idp0 : Z;            (* observed after setup *)
@@ -82,31 +84,46 @@ Definition dump_matches (c : cstate) (o : odump) : bool :=
 Definition model_datas (c : cstate) (l : list odsd) : list odsd := map (fun od => model_dsd c (od_ds od)) l.
 
 (** ** the model's candidates for the recovered state *)
-Definition hook_k (v : variant) (c : cstate) (o : wop) (phase cdone : Z) : nat :=
-  (commit_index (v_cm v) (v_fl v) (v_dm v) c o - 1 + Z.to_nat phase + Z.to_nat cdone)%nat.
+(** all steps through the data commit, then the counter commits of the datasets in [done] (counter commits of
+    different datasets commute; their real order is that of a Go map) *)
+Definition is_counter_of (done : list Z) (s : dstep) : bool :=
+  match s with SCounter ds _ => existsb (Z.eqb ds) done | _ => false end.
+Definition after_commit (v : variant) (c : cstate) (o : wop) (done : list Z) : cstate :=
+  let l := fst (steps (v_cm v) (v_fl v) (v_dm v) c o) in
+  let ci := commit_index (v_cm v) (v_fl v) (v_dm v) c o in
+  reopen (apply_steps c (firstn (S ci) l ++ filter (is_counter_of done) (skipn (S ci) l))).
+
+Fixpoint subsets (l : list Z) : list (list Z) :=
+  match l with [] => [[]] | x :: l' => let r := subsets l' in r ++ map (cons x) r end.
 
 Definition candidates (v : variant) (c1 : cstate) (cr : crashspec) : list cstate :=
   match cr with
   | CNone => [reopen (close c1)]
-  | CHook o phase cdone => [crash_at (v_cm v) (v_fl v) (v_dm v) (hook_k v c1 o phase cdone) c1 o]
+  | CHook o phase done =>
+    if phase <? 2 then [crash_at (v_cm v) (v_fl v) (v_dm v) (commit_index (v_cm v) (v_fl v) (v_dm v) c1 o - 1 + Z.to_nat phase) c1 o]
+    else [after_commit v c1 o done]
   | CKill [] => [reopen c1; reopen (close c1)]
   | CKill alts =>
     flat_map (fun o => map (fun k => crash_at (v_cm v) (v_fl v) (v_dm v) k c1 o)
-                           (seq 0 (S (length (fst (steps (v_cm v) (v_fl v) (v_dm v) c1 o)))))) alts
+                           (seq 0 (S (commit_index (v_cm v) (v_fl v) (v_dm v) c1 o)))
+                       ++ map (after_commit v c1 o) (subsets (map fst (op_sets o)))) alts
   end.
 
-Definition crash_op (cr : crashspec) : option wop :=
-  match cr with CHook o _ _ => Some o | CKill (o :: _) => Some o | _ => None end.
+Definition crash_ops (cr : crashspec) : list wop :=
+  match cr with CHook o _ _ => [o] | CKill alts => alts | CNone => [] end.
 
 Definition agree (v : variant) (t : tcase) : bool :=
   let c0 := cstate0 (t_next0 t) (t_idp0 t) in
   let c1 := run_events (v_cm v) (v_fl v) (v_dm v) (t_prefix t) c0 in
   (* the crash-free reference runs of the implementation are what the model computes without a crash *)
   datas_eqv (model_datas c1 (t_refA t)) (t_refA t)
-  && match t_refB t, crash_op (t_crash t) with
-     | Some rb, Some o => datas_eqv (model_datas (exec_op (v_cm v) (v_fl v) (v_dm v) c1 o) rb) rb
-     | None, _ => true
-     | Some _, None => false
+  && match t_refB t with
+     | Some rb =>
+       match crash_ops (t_crash t) with
+       | [] => false
+       | os => forallb (fun o => datas_eqv (model_datas (exec_op (v_cm v) (v_fl v) (v_dm v) c1 o) rb) rb) os
+       end
+     | None => match crash_ops (t_crash t) with [] => true | _ => false end   (* the driver makes reference B whenever a write was interrupted *)
      end
   (* the recovered store and the store after the tail are what the model computes for the crash position *)
   && existsb (fun c2 =>
